@@ -1,0 +1,73 @@
+//go:build verif
+
+package secretbox
+
+// Contracts for govc (/verif). Comments only.
+//
+// NaCl secretbox = XSalsa20 + Poly1305 (crypto_secretbox_xsalsa20poly1305): relative to the Salsa20 block
+// function under the HSalsa20 subkey (spec.sks, uninterpreted) and to Poly1305 (uninterpreted): the
+// one-time MAC key is keystream bytes 0..31 of block 0, message byte i is XORed with keystream byte 32+i
+// (bytes 32..63 of block 0, then blocks 1, 2, ... from their start), the box is tag | ciphertext.
+//@ pred le64(a, o) = a[o] + a[o+1]*256 + a[o+2]*65536 + a[o+3]*16777216 + a[o+4]*4294967296 + a[o+5]*1099511627776 + a[o+6]*281474976710656 + a[o+7]*72057594037927936
+//@ pred ksb(k, n, i) = spec.sks(k, n, ite(i < 32, 0, 1 + (i - 32) / 64), ite(i < 32, 32 + i, (i - 32) % 64))
+//@ pred inplace(dst, n) = cap(dst) >= len(dst) + n
+//@ pred anyov(dst, n, x) = inplace(dst, n) && len(x) > 0 && n > 0 && sameobj(dst, x) && off(dst) + len(dst) < off(x) + len(x) && off(x) < off(dst) + len(dst) + n
+
+//@ func setup
+//@ props C10
+//@ nonnil subKey counter nonce key
+//@ requires ref(counter[:]) != ref(nonce[:]) && ref(counter[:]) != ref(subKey[:]) && ref(subKey[:]) != ref(nonce[:]) && ref(subKey[:]) != ref(key[:])
+//@ modifies *subKey
+//@ modifies *counter
+//@ ensures forall(i, 0, 8, counter[i] == old(nonce[16 + i])) && forall(i, 8, 16, counter[i] == old(counter[i]))
+
+//@ func sliceForAppend
+//@ props C10
+//@ requires 0 <= n && len(in) + n <= 281474976710656
+//@ modifies in[len(in):len(in)+n]
+//@ ensures len(head) == len(in) + n && len(tail) == n && sameobj(tail, head) && off(tail) == off(head) + len(in)
+//@ ensures implies(cap(in) >= len(in) + n, sameobj(head, in) && off(head) == off(in))
+//@ ensures implies(cap(in) < len(in) + n, newobj(head))
+//@ ensures forall(i, 0, len(in), head[i] == old(in[i]))
+//@ ensures sameoutside(in[len(in):len(in)])
+
+//@ func Seal
+//@ props C10
+//@ reindex
+//@ nonnil nonce key
+//@ requires len(out) + len(message) + 16 <= 281474976710656
+//@ panics_when anyov(out, len(message) + 16, message)
+//@ modifies heap
+//@ ensures len(result) == len(out) + 16 + len(message) && forall(i, 0, len(out), result[i] == old(out[i]))
+//@ loop 1 invariant -1 <= rangeindex && rangeindex < len(firstMessageBlock)
+//@ loop 1 invariant forall(k, 0, rangeindex + 1, out[k] == firstBlock[32 + k] ^ before(firstMessageBlock[k]))
+//@ loop 1 invariant forall(k, 0, len(entry(message)), entry(message)[k] == old(entry(message)[k])) && keptoutside(out[0:len(firstMessageBlock)])
+// block 0 of the key stream (the zero block XORed with it)
+//@ assert_at "var poly1305Key [32]byte" forall(i, 0, 64, firstBlock[i] == spec.sks(ref(subKey[:]), le64(counter, 0), 0, i))
+//@ mark ENC "var tag [poly1305.TagSize]byte"
+//@ check_at "var tag [poly1305.TagSize]byte" len(ciphertext) == len(entry(message)) && forall(i, 0, 32, poly1305Key[i] == spec.sks(ref(subKey[:]), le64(counter, 0), 0, i))
+//@ check_at "var tag [poly1305.TagSize]byte" forall(i, 0, min(32, len(entry(message))), ciphertext[i] == old(entry(message)[i]) ^ spec.sks(ref(subKey[:]), le64(counter, 0), 0, 32 + i))
+//@ check_at "var tag [poly1305.TagSize]byte" forall(i, 32, len(entry(message)), ciphertext[i] == old(entry(message)[i]) ^ spec.sks(ref(subKey[:]), le64(counter, 0), 1 + (i - 32) / 64, (i - 32) % 64))
+//@ check_at "return ret" forall(i, 0, len(entry(message)), ciphertext[i] == at(ENC, ciphertext[i]))
+//@ canary ensures len(result) == len(out)
+
+// Open: the tag (first 16 bytes of the box) is verified over the rest of the box before anything is
+// decrypted or any output is claimed; a box shorter than the tag or with a wrong tag gives (nil, false)
+//@ func Open
+//@ props C10
+//@ reindex
+//@ nonnil nonce key
+//@ requires len(out) + len(box) <= 281474976710656
+//@ may_panic_when len(box) >= 16 && anyov(out, len(box) - 16, box)
+//@ modifies heap
+//@ ensures implies(len(box) < 16, !result1 && result0 == nil)
+//@ ensures implies(!result1, result0 == nil)
+//@ ensures implies(result1, len(result0) == len(out) + len(box) - 16 && forall(i, 0, len(out), result0[i] == old(out[i])))
+//@ loop 1 invariant -1 <= rangeindex && rangeindex < len(firstMessageBlock)
+//@ loop 1 invariant forall(k, 0, rangeindex + 1, out[k] == firstBlock[32 + k] ^ before(firstMessageBlock[k]))
+//@ loop 1 invariant forall(k, 0, len(entry(box)), entry(box)[k] == old(entry(box)[k])) && keptoutside(out[0:len(firstMessageBlock)])
+//@ assert_at "var poly1305Key [32]byte" forall(i, 0, 64, firstBlock[i] == spec.sks(ref(subKey[:]), le64(counter, 0), 0, i))
+// the plaintext is the box body XORed with key stream bytes 32.. (as in Seal)
+//@ check_at "return ret, true" forall(i, 0, min(32, len(entry(box)) - 16), ret[len(entry(out)) + i] == old(entry(box)[16 + i]) ^ spec.sks(ref(subKey[:]), le64(counter, 0), 0, 32 + i))
+//@ check_at "return ret, true" forall(i, 32, len(entry(box)) - 16, ret[len(entry(out)) + i] == old(entry(box)[16 + i]) ^ spec.sks(ref(subKey[:]), le64(counter, 0), 1 + (i - 32) / 64, (i - 32) % 64))
+//@ canary ensures result1
